@@ -83,6 +83,11 @@ func (g mapReprMapReprGenerator) EmitNodeMethodLookupByNode(w io.Writer) {
 	//  so we should investigate if there's any runtime checks injected here that waste time.  If so: write this with more gsloc to avoid :(
 	doTemplate(`
 		func (nr *_{{ .Type | TypeSymbol }}__Repr) LookupByNode(k datamodel.Node) (datamodel.Node, error) {
+			{{- if not (eq .Type.KeyType.TypeKind.String "string") }}
+			if k2, ok := k.(*_{{ .Type.KeyType | TypeSymbol }}__Repr); ok {
+				k = ({{ .Type.KeyType | TypeSymbol }})(k2) // the form this level's own iterator yields keys in
+			}
+			{{- end}}
 			v, err := ({{ .Type | TypeSymbol }})(nr).LookupByNode(k)
 			if err != nil || v == datamodel.Null {
 				return v, err
